@@ -46,7 +46,9 @@ def c01_history(case):
         n = 30
         f0 = rng.dirichlet(np.ones(n) * 0.3)
         m = _mineral(regime=regimes[0], n=n, fractions=f0)
-        params = _params(number_of_grains=n, gbs_threshold=chi)
+        # the update is defined by the mineral's own grain count: the parameter record's `number_of_grains` (used when
+        # minerals are created from a configuration) is deliberately different here, smaller / larger / default
+        params = _params(number_of_grains={0.3: 12, 0.4: 3500, 0.0: n}.get(chi, n + 7) if len(regimes) != 2 or chi == 0.0 else n + 7, gbs_threshold=chi)
         Fm = np.eye(3)
         for k, rg in enumerate(regimes):
             m.regime = getattr(core.DeformationRegime, rg)
@@ -251,6 +253,37 @@ def c07_dispatch(case):
         if len(m.orientations) != len(before) or len(m.fractions) != len(before) or any(
                 not (np.array_equal(a, c) and np.array_equal(b, d)) for (a, b), c, d in zip(before, m.orientations, m.fractions)):
             problems.append(f"{label}: failed update left {len(m.orientations)} snapshots (was {len(before)}) or altered them")
+    # a genuine solver failure part of the way through the interval (fault injection: scipy's LSODA wrapped so that
+    # it reports status 'failed' after two accepted steps, which is what LSODA does on repeated convergence failures)
+    from pydrex import minerals as _minerals
+    from scipy.integrate import LSODA as _RealLSODA
+
+    class FailingLSODA(_RealLSODA):
+        accepted = 0
+
+        def step(self):
+            if self.accepted >= 2:
+                self.status = "failed"
+                return "injected: repeated convergence failures"
+            self.accepted += 1
+            return super().step()
+
+    m = _mineral(n=8)
+    m.update_orientations(_params(number_of_grains=8), np.eye(3), lambda t, x: L, (0.0, 0.2, lambda t: np.zeros(3)))
+    before = [(a.copy(), b.copy()) for a, b in zip(m.orientations, m.fractions)]
+    old = _minerals.LSODA
+    _minerals.LSODA = FailingLSODA
+    try:
+        try:
+            m.update_orientations(_params(number_of_grains=8), np.eye(3), lambda t, x: L, (0.2, 1.2, lambda t: np.zeros(3)))
+            problems.append("solver failure after two accepted steps: update did not fail")
+        except Exception:  # noqa: BLE001
+            pass
+    finally:
+        _minerals.LSODA = old
+    if len(m.orientations) != len(before) or len(m.fractions) != len(before) or any(
+            not (np.array_equal(a, c) and np.array_equal(b, d)) for (a, b), c, d in zip(before, m.orientations, m.fractions)):
+        problems.append(f"solver failure after two accepted steps: failed update left {len(m.orientations)} snapshots (was {len(before)}) or altered them")
     return {"reproduced": bool(problems), "detail": sorted(set(problems))[:6] or "dispatch as documented"}
 
 
@@ -434,6 +467,24 @@ def c13_diagnostics(case):
     ba = dg.coaxial_index(A)
     if not 0 <= ba <= 1:
         problems.append("coaxial index outside [0, 1]")
+    # girdle / point / random textures, every ordered pair of axes: range and the defining formula in terms of the
+    # public point / girdle indices of the two axes
+    rs = np.random.default_rng(21)
+    ang = rs.uniform(0, 2 * np.pi, 80)
+    spin_a = Rotation.from_rotvec(np.outer(ang, [1.0, 0.0, 0.0])).as_matrix()  # a-axes fixed, b- and c-axes on a girdle
+    spin_b = Rotation.from_rotvec(np.outer(ang, [0.0, 1.0, 0.0])).as_matrix()
+    textures = {"a-point / b,c-girdle": spin_a, "b-point / a,c-girdle": spin_b, "random": Rotation.random(80, random_state=5).as_matrix(),
+                "clustered": (Rotation.from_rotvec(rs.normal(size=(80, 3)) * 0.2)).as_matrix()}
+    for label, T in textures.items():
+        for a1, a2 in it.permutations("abc", 2):
+            got = dg.coaxial_index(T, axis1=a1, axis2=a2)
+            P1, G1, _ = dg.symmetry_pgr(T, axis=a1)
+            P2, G2, _ = dg.symmetry_pgr(T, axis=a2)
+            want = 0.5 * (2 - P1 / (G1 + P1) - G2 / (G2 + P2))
+            if not (-1e-12 <= got <= 1 + 1e-12) or not np.isclose(got, want, atol=1e-10):
+                problems.append(f"coaxial_index({label}, axis1={a1}, axis2={a2}) = {got:.4f}, defining formula gives {want:.4f}")
+    if dg.coaxial_index(spin_b) != dg.coaxial_index(spin_b, axis1="b", axis2="a"):
+        problems.append("coaxial_index default axes are not (b, a)")
     F = np.array([[1.3, 0.4, 0.1], [0.0, 0.8, 0.5], [0.2, -0.3, 1.1]])
     for Ft in (F, np.diag([1.1, 1.05, 0.3]), Q @ np.diag([0.9, 0.5, 0.4]) @ Q.T, np.diag([1.2, 1.2, 0.2]) @ Q, np.array([[1.0, 0.0, 0.0], [0.3, 0.6, 0.0], [0.0, 0.1, 0.5]])):
         s_, v_ = dg.finite_strain(Ft)
@@ -653,10 +704,24 @@ def c20_geometry(case):
         for i, c in enumerate(np.column_stack([xc, yc, zc])):
             dens, scale = fn_(np.abs(cl @ c), axial=True)
             tot[i] = (dens.sum() - 0.5) / scale
+        if tot.mean() == 0:
+            continue  # no grid node counts any datum: the normalisation the property speaks of does not exist (outside the claim)
         want = tot / tot.mean()
         want[want < 0] = 0
         if not np.allclose(T.ravel(), want, rtol=1e-9, atol=1e-12):
             problems.append(f"point_density[{kernel}]: not (raw estimate / grid mean) with negatives clipped afterwards (max diff {np.abs(T.ravel() - want).max():.2e})")
+    # axial and non-axial data, few and many data: estimates finite, non-negative, grid mean 1 before clipping
+    for kernel, axial, n in it.product(stats.SPHERICAL_COUNTING_KERNELS, (True, False), (3, 40, 100, 150)):
+        if kernel == "schmidt_count" and n < 100:
+            continue  # the 1 % counting circle can miss every grid node for so few data (raw grid mean 0: outside the claim)
+        dn = np.random.default_rng(n).normal(size=(n, 3))
+        dn /= np.linalg.norm(dn, axis=1)[:, None]
+        with np.errstate(all="ignore"):
+            Tn = stats.point_density(dn[:, 0], dn[:, 1], dn[:, 2], gridsteps=15, kernel=kernel, axial=axial)[2]
+        if not (np.all(np.isfinite(Tn)) and Tn.min() >= 0):
+            problems.append(f"point_density[{kernel}, axial={axial}, {n} data]: estimates not finite / negative")
+        elif Tn.min() > 0 and not np.isclose(Tn.mean(), 1.0, atol=1e-9):
+            problems.append(f"point_density[{kernel}, axial={axial}, {n} data]: grid mean {Tn.mean():.6f} although nothing was clipped")
     data = u[:25]
     for kernel in stats.SPHERICAL_COUNTING_KERNELS:
         Xg, Yg, T = stats.point_density(data[:, 0], data[:, 1], data[:, 2], gridsteps=21, kernel=kernel)
@@ -774,7 +839,8 @@ def c19_config(case):
                     problems.append("parsed phase lists inconsistent")
         # single-fault configurations must raise ConfigError
         for extra in ('phase_fractions = [0.7, 0.31]', 'phase_fractions = [1.0]', 'phase_assemblage = ["olivine", "pyroxene"]', 'initial_olivine_fabric = "Z"',
-                      'phase_fractions = [0.5, 0.25, 0.25]', 'phase_assemblage = ["olivine"]', 'phase_assemblage = [0, 7]', 'phase_fractions = [0.7, 0.3, 0.0]'):
+                      'phase_fractions = [0.5, 0.25, 0.25]', 'phase_assemblage = ["olivine"]', 'phase_assemblage = [0, 7]', 'phase_fractions = [0.7, 0.3, 0.0]',
+                      'phase_fractions = [0.7, 0.2]', 'phase_fractions = [0.5, 0.0]', 'phase_fractions = [0.7, 0.29999]', 'phase_fractions = [-0.5, 1.4]'):
             lines = ["[input]", 'velocity_gradient = ["simple_shear_2d", "Y", "X", 5e-6]', 'locations_initial = "start.scsv"', "timestep = 1e9", "[parameters]"]
             if "assemblage" not in extra:
                 lines.append('phase_assemblage = ["olivine", "enstatite"]')
